@@ -4,6 +4,9 @@ from rules import filters
 
 def check(ctx):
     rep = ctx.rep
+    from rules import zincspec as _zs
+    nna = _zs.check_number_no_arith(ctx, rep)
+    rep.floor("functions of the Zinc number decoder", nna, 5)
     from rules import tz as _tzz
     nz = _tzz.check_zone_names(ctx, rep)
     rep.floor("zone-name table obligations (T-ZONES)", nz, 2)
